@@ -36,6 +36,7 @@ RULE = ("seeded generator over trunk space (1-3 variables, total dim 1-5, declar
         "deciding comparison of its kind was made (twin: derivatives and parameter gradients of both nets; forms: at "
         "least three input forms); distinct = (kind, branch type, output dim, K class, #functions class, trunk rank, "
         "normalisation, grouped flags); history cases: (branch type, output dim, trunk rank, fast|plain, operation pattern).")
+RULE += '; every training step of the history workload evaluates a second function set of the same size in the same iteration'
 REQUIRED_REACH = ["DeepONet._forward_branch", "FunctionSetCollection.create_function_batch", "linear.forward", "linear.backward", "TrunkLinear.forward", "TrunkNet._reshape_multidimensional_output",
                   "BranchNet._reshape_multidimensional_output", "BranchNet.fix_input", "DeepONet.forward",
                   "DeepONet.fix_branch_input", "FCTrunkNet.forward", "FCBranchNet.forward", "ConvBranchNet1D.forward",
@@ -590,7 +591,9 @@ def _run_history(ctx):
             "tensor2d": (Vb[j2].clone(), Vb[j2:j2 + 1]),
             "points3d": (Points(Vb.clone(), Space({"f": ch})), Vb),
             "points2d": (Points(Va[j2].clone(), Space({"f": ch})), Va[j2:j2 + 1]),
-            "functionset": (CustomFunctionSet(fsp, DataSampler({"k": kb.clone()}), _named_fn(["k", var], ch)), Vb)}
+            "functionset": (CustomFunctionSet(fsp, DataSampler({"k": kb.clone()}), _named_fn(["k", var], ch)), Vb),
+            # the function set of a second condition that trains the same model in the same iteration
+            "functionset2": (CustomFunctionSet(fsp, DataSampler({"k": ka.clone()}), _named_fn(["k", var], ch)), Va)}
     opt = torch.optim.SGD(net.parameters(), lr=0.02)
     tol = 1e-4
     iteration = 0
@@ -648,6 +651,13 @@ def _run_history(ctx):
                                                                   net(pts))[1], op=op)
             if out is not None:
                 check(out, V, V.shape[0], step, op, "functionset", "")
+            # a second condition with its own function set (same size) in the SAME iteration
+            fset2, V2 = pool["functionset2"]
+            out = _lib(ctx, "_forward_branch + forward (second function set, same iteration)",
+                       lambda: (net._forward_branch(fset2, iteration_num=iteration), net(pts))[1], op=op)
+            if out is not None:
+                ctx.count("history_second_function_set_same_iteration")
+                check(out, V2, V2.shape[0], step, op, "functionset2", "another function set evaluated in the same iteration")
             for k in changed_since:
                 changed_since[k].append("train")
         else:
